@@ -36,9 +36,13 @@ class Result:
                 if k not in ('outcomes', 'violations', 'sample_schedules')}
 
 
+FINE = {'files': ()}
+
+
 def _mk(n, program, delivery, want_key=True):
     simdist.install()
-    return simdist.World(n, program, delivery=delivery, want_key=want_key)
+    return simdist.World(n, program, delivery=delivery, want_key=want_key,
+                         fine_files=FINE['files'])
 
 
 def explore(n, program, *, delivery='eager', oracle=None, outcome=None,
